@@ -188,7 +188,7 @@ func runC17(o *cli.Opts, run *evid.Run) {
 				sweep = append(sweep, db{d, b})
 			}
 		}
-		sweep = append(sweep, db{16, 8}, db{20, 100}, db{2, 16}, db{1, 60}, db{4, 15}, db{3, 250}, db{32, 33}, db{31, 1}, db{10, 8}, db{3, 2}, db{30, 4}, db{10, 8}, db{2, 1}, db{16, 8})
+		sweep = append(sweep, db{16, 8}, db{20, 100}, db{2, 16}, db{1, 60}, db{4, 15}, db{3, 250}, db{31, 33}, db{31, 1}, db{10, 8}, db{3, 2}, db{30, 4}, db{10, 8}, db{2, 1}, db{16, 8})
 	} else {
 		sweep = []db{{1, 1}, {3, 2}, {10, 8}, {2, 1}, {10, 8}, {5, 3}, {3, 2}, {8, 4}, {31, 1}, {1, 1}, {30, 4}, {2, 16}, {1, 60}, {4, 15}, {2, 16}}
 	}
@@ -205,6 +205,10 @@ func runC17(o *cli.Opts, run *evid.Run) {
 		}
 		dg := sha(text)
 		ok := true
+		if miss := modelIncomplete(text); miss != "" {
+			ok = false
+			run.Violate(key+"/incomplete", fmt.Sprintf("ExtractLean(%d,%d) reports success but the model %s (%d bytes)", s.d, s.b, miss, len(text)), nil)
+		}
 		if prev, had := seen[s]; had && prev != dg {
 			ok = false
 			run.Violate(key, fmt.Sprintf("ExtractLean(%d,%d) is not deterministic: a later extraction in the same process differs from an earlier one", s.d, s.b), nil)
@@ -222,8 +226,54 @@ func runC17(o *cli.Opts, run *evid.Run) {
 		seen[s] = dg
 		run.Case("sweep", true, key, ok, map[string]any{"depth": s.d, "batch": s.b, "digest": dg, "bytes": len(text)})
 	}
+	// dimensions the circuits do not support (deletion stops at depth 31): extraction may refuse them, but it must
+	// never report success with an empty or partial model, and the CLI must not replace a model file by one
+	for i, s := range []db{{32, 4}, {33, 1}, {64, 2}} {
+		key := fmt.Sprintf("C17/unsupported/%d/d=%d/b=%d", i, s.d, s.b)
+		if !run.Wants(key) {
+			continue
+		}
+		text, err := prover.ExtractLean(uint32(s.d), uint32(s.b))
+		ok := true
+		if err == nil {
+			if miss := modelIncomplete(text); miss != "" {
+				ok = false
+				run.Violate(key, fmt.Sprintf("ExtractLean(%d,%d) returns no error but the model %s (%d bytes)", s.d, s.b, miss, len(text)), nil)
+			}
+		}
+		if i == 0 {
+			out := filepath.Join(o.Scratch, "c17-unsupported.lean")
+			os.WriteFile(out, []byte(committed), 0o644)
+			res := proc.Run(bin, nil, 10*time.Minute, nil, "extract-circuit", "--tree-depth", fmt.Sprint(s.d), "--batch-size", fmt.Sprint(s.b), "--output", out)
+			b, _ := os.ReadFile(out)
+			os.Remove(out)
+			if res.Exit == 0 {
+				if miss := modelIncomplete(string(b)); miss != "" {
+					ok = false
+					run.Violate(key+"/cli", fmt.Sprintf("`extract-circuit --tree-depth %d` exits 0 and leaves a model file that %s (%d bytes)", s.d, miss, len(b)), nil)
+				}
+			}
+			run.Add("cli_unsupported_runs", 1)
+		}
+		run.Case("unsupported-dimension", true, key, ok, map[string]any{"depth": s.d, "batch": s.b, "refused": err != nil})
+	}
 	run.Stage("sweep")
 	run.Require("definitions compared", run.ClassTally("model-definition").Cases, 50)
 	run.Require("referenced names checked", run.ClassTally("referenced-name").Cases, 10)
 	run.Require("fresh-process extractions", len(gmps), 3)
+}
+
+// modelIncomplete says what a Lean model text lacks to be a complete extraction ("" if nothing).
+func modelIncomplete(text string) string {
+	switch {
+	case len(text) == 0:
+		return "is empty"
+	case !strings.Contains(text, "def InsertionMbuCircuit_"):
+		return "lacks the insertion circuit definition"
+	case !strings.Contains(text, "def DeletionMbuCircuit_"):
+		return "lacks the deletion circuit definition"
+	case !strings.HasSuffix(strings.TrimSpace(text), "end SemaphoreMTB"):
+		return "does not end with `end SemaphoreMTB`"
+	}
+	return ""
 }
